@@ -48,7 +48,12 @@ def gen_tree(rng, depth=0, kinds=None):
             return [DerivationTree(Terminal(rng.choice(TEXTS)))]
         if k == "b":
             return [DerivationTree(Terminal(rng.choice(BYTES)))]
-        n = rng.choice([1, 3, 5, 8, 8, 8, 8, 16, 4, 4])   # a run of bits (two 4s or 3+5 across siblings align)
+        n = rng.choice([1, 3, 5, 8, 8, 8, 8, 16, 4, 4, 16, 24, 32])   # a run of bits (two 4s or 3+5 across siblings align)
+        if n >= 16 and rng.random() < 0.6:
+            # a length field holding a small number: whole leading zero bytes, zero bytes in the middle, all zero
+            val = rng.choice([0, 1, 65, 255, 256, 300, 65536, rng.randrange(1 << 10)])
+            bits = [int(b) for b in format(val % (1 << n), f"0{n}b")]
+            return [DerivationTree(Terminal(b)) for b in bits]
         return [DerivationTree(Terminal(rng.randint(0, 1))) for _ in range(n)]
 
     def node(d):
@@ -129,7 +134,7 @@ def correspondence(res):
     corr = common.run_case_codes("C09", "corr", HEADER, terms, "c09_corr", chunk=250, ctype=CT)
     prop = common.run_case_codes("C09", "prop", HEADER, terms, "c09_prop", chunk=250, ctype=CT)
     res.coverage["rule"] = ("random trees (depth <= 4) over text (ASCII, Latin-1, BMP, astral), bytes (incl. >= 0x80) and bit-run leaves of "
-                            "lengths 1..16 placed across sibling boundaries x random request sequences str/bytes/to_bits/int on one real tree "
+                            "lengths 1..32 (incl. length-field like runs with leading zero bytes) placed across sibling boundaries x random request sequences str/bytes/to_bits/int on one real tree "
                             "object; model answers vs implementation (correspondence) and implementation vs the leaf-sequence specification "
                             "(property); repeated requests must repeat. non-trivial = >= 3 leaves of >= 2 kinds; distinct by (tree, requests)")
     bad = [i for i, v in enumerate(corr) if v != 1]
